@@ -20,6 +20,10 @@ def replace_node(node: _M, repl: _M) -> None:
         raise ValueError('Cannot replace a free token.')
     if node is repl:
         return
+    if repl.token_store is token_store:
+        # The replacement lives in the very store of the node it is to replace: it is either attached elsewhere in the same
+        # tree or it contains that node (a cycle). Detaching it first would take the node's own tokens away.
+        raise ValueError('Cannot reuse node. Consider making a copy.')
     token_store.splice(repl.detach(), node.first_token, node.last_token)
     if isinstance(repl, base.RawTreeModel):
         repl.reattach(token_store)
